@@ -217,6 +217,8 @@ def v2(ctx, fx, U):
                         a = n.kids[p.d["idx"] - 1]
                         okv = must(a, lambda x: x.kind == "call" and x.d["term"].get("name") in ("get", "index") and len(x.kids) > 1 and const_value(x.kids[1]) in ("_sd", "...")
                                    and may(x.kids[0], lambda y: y.kind == "param" and y.fn is fn))
+                        if not okv:
+                            okv = _iterated_reserved_member(fn, a, b)
                         if okv:
                             ctx.ok("C03.V2", fn, "digest-source:%s" % callee.name.split("::")[-1], "digests handed to %s are read from the `_sd` / `...` member of the structure being unpacked" % callee.name.split("::")[-1], line=t.get("line"))
                         else:
@@ -308,6 +310,43 @@ def v5(ctx, fx, U):
             ctx.ok("C03.V5", fn, "element-position", "elements are appended (push only) to the vector that is returned, in iteration order")
         else:
             ctx.finding("C03.V5", fn, "element-position", "array elements are not appended in iteration order to the returned array (%s)" % (reorder or "a push goes to another vector"))
+
+
+def _iterated_reserved_member(fn, a, b):
+    """a = the value of the (key, value) item of a loop over the JSON object being unpacked, used at block b only where the item's key
+    compared equal to `_sd` / `...` (`for (k, v) in obj { match k.as_str() { "_sd" => f(v), .. } }`): the reserved member, found by
+    iteration instead of a keyed lookup"""
+    x = peel(a)
+    g = 0
+    item = None
+    while x.kind in ("variant", "field", "alias") and x.kids and g < 8:
+        g += 1
+        if x.kind == "field" and x.d.get("idx") == 1 and x.d.get("adt") in (None,):
+            base = peel(x.kids[0])
+            bb_ = base
+            h = 0
+            while bb_.kind in ("variant", "field") and bb_.kids and h < 4:
+                bb_ = peel(bb_.kids[0])
+                h += 1
+            if bb_.kind == "call" and bb_.d["term"].get("name") == "next":
+                item = base
+                nxt = bb_
+                break
+        x = peel(x.kids[0])
+    if item is None:
+        return False
+    # the loop runs over a parameter of fn (the structure being unpacked)
+    if not may(nxt.kids[0], lambda y: y.kind == "param" and y.fn is fn):
+        return False
+    def is_key(l):
+        from val import same
+        return any(y.kind == "field" and y.d.get("idx") == 0 and y.kids and (peel(y.kids[0]) is item or same(y.kids[0], item)) for y in walk(l))
+    good = []
+    for (sb, eq_t, ne_t, l, r) in common.string_compare_switches(fn):
+        for (u, w) in ((l, r), (r, l)):
+            if const_value(w) in ("_sd", "...") and is_key(u):
+                good.append((sb, eq_t))
+    return bool(good) and common.guarded_ps(fn, b, good)
 
 
 def chk(ctx, rule, fn, line, what, cond, okmsg, badmsg):
